@@ -82,6 +82,48 @@ def lock_cases():
         return e
     out.append(Case("Event.wait on a set event", setup_e, lambda e: e.wait(),
                     lambda e: (e.is_set(), e.statistics().tasks_waiting)))
+
+    # primitives instantiated (and, for Event / Future, completed) where no event loop runs:
+    # the lazily bound adapters
+    from ..dsl import _outside_loop
+
+    def outside(make):
+        async def setup(tg):
+            return _outside_loop(make)
+        return setup
+
+    def set_event():
+        e = anyio.Event()
+        e.set()
+        return e
+    out.append(Case("Event.wait on an event created and set outside the loop", outside(set_event),
+                    lambda e: e.wait(), lambda e: (e.is_set(), e.statistics().tasks_waiting)))
+
+    def done_future():
+        f = anyio.Future()
+        f.return_value = 3
+        return f
+
+    async def setup_f(tg):
+        import threading
+        box = []
+        th = threading.Thread(target=lambda: box.append(done_future()))
+        th.start()
+        th.join()
+        return box[0]
+    out.append(Case("await a Future created and resolved outside the loop", setup_f,
+                    lambda f: _await(f), lambda f: f.status.name))
+    out.append(Case("Lock.acquire uncontended, lock created outside the loop",
+                    outside(anyio.Lock), lambda l: l.acquire(),
+                    lambda l: (l.locked(), l.statistics().tasks_waiting),
+                    lambda b, a: a[0] is True))
+    out.append(Case("Semaphore.acquire value=1, created outside the loop",
+                    outside(lambda: anyio.Semaphore(1)), lambda s: s.acquire(),
+                    lambda s: (s.value, s.statistics().tasks_waiting), lambda b, a: a[0] == 0))
+    out.append(Case("CapacityLimiter.acquire free token, created outside the loop",
+                    outside(lambda: anyio.CapacityLimiter(1)), lambda l: l.acquire(),
+                    lambda l: (l.borrowed_tokens, l.statistics().tasks_waiting),
+                    lambda b, a: a[0] == 1))
     return out
 
 
